@@ -40,7 +40,7 @@ FL = rrpc.PFC_FIRST | rrpc.PFC_LAST
 def plan(tier, seed):
     q = tier == "quick"
     specs = [{"name": f"wf-{i}", "kind": "wellformed", "n": 250 if q else 12000} for i in range(8)]
-    specs += [{"name": f"hostile-{i}", "kind": "hostile", "n": 1500 if q else 60000} for i in range(8)]
+    specs += [{"name": f"hostile-{i}", "kind": "hostile", "n": 1500 if q else 15000} for i in range(16 if not q else 8)]
     return specs
 
 
@@ -226,7 +226,7 @@ def hostile_reply(rng, base: bytes) -> bytes:
         return b"\x00" * 20 + struct.pack("<IQQQQ", 1, 1, 0, 1, 3) + tw + b"\x00" * 4
     if k == 6:  # many real towers (maximum that fits a fragment)
         tw = repm.tcpip_tower(rrpc.ISD_KEY, rrpc.NDR, 1, 0)
-        n = rng.choice([50, 400, 700])
+        n = rng.choice([5, 50, 50, 400, 700])
         return repm.enc_response([tw] * n, 0)
     b = bytearray(base)
     w = rng.choice([2, 4, 8])
